@@ -36,6 +36,14 @@
 //!              fail with exit code 99 and `script_exhausted` is reported
 //!              <ret> = null | {"bool": b} | {"u64": n} | {"i64": n} | {"bigint": n} | {"string": s}
 //!                      | {"cbor_bytes": "hex"} (a CBOR byte string) | {"bytes": "hex"} (already encoded CBOR)
+//!                      | {"address": <address>} (CBOR of an Address, e.g. the account actor's PubkeyAddress answer)
+//!                      | {"this_epoch_reward": {"position": n, "velocity": n, "baseline_power": n}}
+//!                        (CBOR of fil_actors_runtime::reward::ThisEpochRewardReturn; position/velocity are the
+//!                        Q.128 numbers of the smoothed FilterEstimate, i.e. reward = position >> 128)
+//!   consensus_fault  what `verify_consensus_fault` answers: {"target": id, "epoch": i64 [, "fault_type":
+//!              "DoubleForkMining" (default) | "ParentGrinding" | "TimeOffsetMining"]} -> Ok(Some(fault)),
+//!              null -> Ok(None), "error" -> Err.  When the key is absent the older switch
+//!              syscalls.consensus_fault decides (true: a fault of the receiver at epoch-1, false: Ok(None)).
 
 use std::cell::RefCell;
 use std::collections::{HashMap, VecDeque};
@@ -50,6 +58,7 @@ use fil_actors_runtime::runtime::{
 };
 use fil_actors_runtime::test_blockstores::MemoryBlockstore;
 use fil_actors_runtime::test_utils::{self, make_identity_cid, ACTOR_CODES, ACTOR_TYPES};
+use fil_actors_runtime::reward::{FilterEstimate, ThisEpochRewardReturn};
 use fil_actors_runtime::{actor_error, ActorError, SendError};
 use fvm_ipld_encoding::ipld_block::IpldBlock;
 use fvm_ipld_encoding::{CborStore, CBOR};
@@ -109,6 +118,38 @@ pub struct SendRecord {
     pub note: Option<&'static str>,
 }
 
+/// Scripted answer of `verify_consensus_fault` (scenario key "consensus_fault").
+#[derive(Clone, Debug)]
+pub enum ConsensusFaultScript {
+    Fault { target: Address, epoch: ChainEpoch, fault_type: ConsensusFaultType },
+    NoFault,
+    Error,
+}
+
+fn parse_consensus_fault(v: &Value) -> Result<ConsensusFaultScript> {
+    match v {
+        Value::Null => Ok(ConsensusFaultScript::NoFault),
+        Value::String(s) if s.eq_ignore_ascii_case("error") || s.eq_ignore_ascii_case("err") => {
+            Ok(ConsensusFaultScript::Error)
+        }
+        Value::String(s) if s.eq_ignore_ascii_case("none") => Ok(ConsensusFaultScript::NoFault),
+        Value::Object(_) => {
+            let fault_type = match opt(v, "fault_type").and_then(|x| x.as_str()) {
+                None | Some("DoubleForkMining") => ConsensusFaultType::DoubleForkMining,
+                Some("ParentGrinding") => ConsensusFaultType::ParentGrinding,
+                Some("TimeOffsetMining") => ConsensusFaultType::TimeOffsetMining,
+                Some(other) => bail!("malformed scenario: unknown consensus fault type '{}'", other),
+            };
+            Ok(ConsensusFaultScript::Fault {
+                target: addr(req(v, "target")?)?,
+                epoch: req_i64(v, "epoch")?,
+                fault_type,
+            })
+        }
+        other => bail!("malformed scenario: 'consensus_fault' must be an object, null or \"error\", got {}", other),
+    }
+}
+
 pub struct Syscalls {
     pub verify_signature: bool,
     pub verify_post: bool,
@@ -147,6 +188,9 @@ pub struct ReplayRuntime {
     // script
     pub script: RefCell<VecDeque<SendOutcome>>,
     pub syscalls: Syscalls,
+    /// None = key absent: `syscalls.consensus_fault` decides
+    pub consensus_fault: Option<ConsensusFaultScript>,
+    pub consensus_fault_calls: RefCell<u64>,
     // recordings
     pub sends: RefCell<Vec<SendRecord>>,
     pub script_exhausted: RefCell<bool>,
@@ -246,6 +290,14 @@ pub fn parse_ret(v: Option<&Value>) -> Result<Option<IpldBlock>> {
         "string" => IpldBlock::serialize_cbor(x.as_str().ok_or_else(|| anyhow!("ret.string must be a string"))?)?,
         "cbor_bytes" => IpldBlock::serialize_cbor(&fvm_ipld_encoding::BytesSer(&hex_of(x)?))?,
         "bytes" => Some(IpldBlock { codec: CBOR, data: hex_of(x)? }),
+        "address" => IpldBlock::serialize_cbor(&addr(x)?)?,
+        "this_epoch_reward" => IpldBlock::serialize_cbor(&ThisEpochRewardReturn {
+            this_epoch_reward_smoothed: FilterEstimate {
+                position: big(req(x, "position")?)?,
+                velocity: opt(x, "velocity").map(big).unwrap_or(Ok(BigInt::from(0)))?,
+            },
+            this_epoch_baseline_power: opt(x, "baseline_power").map(big).unwrap_or(Ok(BigInt::from(0)))?,
+        })?,
         other => bail!("malformed scenario: unknown send 'ret' kind '{}'", other),
     };
     Ok(blk)
@@ -347,6 +399,11 @@ impl ReplayRuntime {
             caller_validated: RefCell::new(false),
             script: RefCell::new(script),
             syscalls,
+            consensus_fault: match sc.get("consensus_fault") {
+                None => None,
+                Some(v) => Some(parse_consensus_fault(v).context("key 'consensus_fault'")?),
+            },
+            consensus_fault_calls: RefCell::new(0),
             sends: RefCell::new(vec![]),
             script_exhausted: RefCell::new(false),
             commits: RefCell::new(0),
@@ -914,14 +971,19 @@ impl Primitives for ReplayRuntime {
     }
 
     fn verify_consensus_fault(&self, _h1: &[u8], _h2: &[u8], _extra: &[u8]) -> anyhow::Result<Option<ConsensusFault>> {
-        if self.syscalls.consensus_fault {
-            Ok(Some(ConsensusFault {
+        *self.consensus_fault_calls.borrow_mut() += 1;
+        match &self.consensus_fault {
+            Some(ConsensusFaultScript::Fault { target, epoch, fault_type }) => {
+                Ok(Some(ConsensusFault { target: *target, epoch: *epoch, fault_type: *fault_type }))
+            }
+            Some(ConsensusFaultScript::NoFault) => Ok(None),
+            Some(ConsensusFaultScript::Error) => Err(anyhow!("consensus fault verification rejected by the replay script")),
+            None if self.syscalls.consensus_fault => Ok(Some(ConsensusFault {
                 target: self.receiver,
                 epoch: self.epoch - 1,
                 fault_type: ConsensusFaultType::DoubleForkMining,
-            }))
-        } else {
-            Ok(None)
+            })),
+            None => Ok(None),
         }
     }
 
